@@ -1033,6 +1033,22 @@ fn need_of(d: Drv, cfg: &[u8]) -> usize {
         Drv::P9 => 2 + cfg[0] as usize,
     }
 }
+/// the bounds streams on behalf of another check (C07: no access outside the device's configuration
+/// window; C11: PCI operations access only the capability windows)
+pub fn bounds_cases_for(ctx: &Ctx, prop: &str, mmio: bool) -> Vec<Case> {
+    let lens = window_lengths(ctx.tier);
+    let mut all = vec![];
+    if mmio {
+        all.extend(crate::runner::par_cases(ctx, prop, "bounds-mmio", lens.len() * 4, |i, id| bounds_mmio(ctx, i, id)));
+    }
+    all.extend(crate::runner::par_cases(ctx, prop, "bounds-pci", (lens.len() + 1) * 2, |i, id| bounds_pci(ctx, i, id)));
+    all
+}
+
+pub fn bounds_cases(ctx: &Ctx) -> Vec<Case> {
+    bounds_cases_for(ctx, "C07", true)
+}
+
 pub fn run(ctx: &Ctx) -> (Vec<Case>, String, bool, BTreeMap<String, String>) {
     let lens = window_lengths(ctx.tier);
     let mut all = crate::runner::par_cases(ctx, "C13", "bounds-mmio", lens.len() * 4, |i, id| bounds_mmio(ctx, i, id));
